@@ -75,10 +75,46 @@ def r1(fx, chk):
         return
     adt = fx.adt_short("BoxType")
     variants = [v["name"] for v in adt["variants"]]
-    t1 = tables.match_table(fx, tables.find_match(f_from))
-    t2 = tables.match_table(fx, tables.find_match(f_into))
+    m1 = tables.find_match(f_from)
+    m2 = tables.find_match(f_into)
     fwd = {}   # code -> variant
     wild_ok = False
+    t1 = tables.match_table(fx, m1) if m1 is not None else []
+    if m1 is None:
+        # second form: a constant table of (code, variant) pairs searched for the code, with UnknownBox(t) as the fallback
+        pairs = None
+        for cid, c in fx.consts.items():
+            if not cid.startswith(f_from["id"] + "::"):
+                continue
+            for n, _ in hirq.walk((c.get("hir") or {}).get("body") or {}):
+                if n.get("k") == "array" and n.get("es") and all(e.get("k") == "tup" and len(e.get("es", [])) == 2 for e in n["es"]):
+                    pairs = n["es"]
+        root1 = hirq.body_root(f_from)
+        searched = any(n.get("k") == "mcall" and n.get("m") in ("find", "position", "binary_search_by_key", "find_map") for n, _ in hirq.walk(root1))
+        fallback = any(n.get("k") == "call" and (n.get("fn") or "").endswith("BoxType::UnknownBox") and n.get("args") and n["args"][0].get("res") == "local" for n, _ in hirq.walk(root1))
+        if pairs is not None and searched:
+            for e in pairs:
+                code_n, var_n = e["es"]
+                cv = code_n.get("val") if code_n.get("k") == "lit" else None
+                vv = var_n.get("def") if var_n.get("k") == "path" else None
+                if not isinstance(cv, int) or not vv:
+                    chk.bad("R1", "pair|%s" % hirq.expr_str(e)[:30], "unexpected entry shape in the code table of From<u32> for BoxType", site_of(f_from, e.get("line")))
+                    continue
+                if cv in fwd:
+                    # `find` returns the first match: a second entry with the same code is dead
+                    chk.bad("R1", "dup-code|%08x" % cv, "code 0x%08x appears twice in the code table of From<u32> for BoxType (second is dead)" % cv, site_of(f_from, e.get("line")))
+                else:
+                    fwd[cv] = last(vv)
+            wild_ok = fallback
+        else:
+            chk.analysed.setdefault("tables_not_compared", []).append("From<u32> for BoxType")
+            chk.ok("R1", "From<u32>.form", "not compared: the decoder of box codes is neither a match nor a searched constant table", site_of(f_from))
+            return
+    if m2 is None:
+        chk.analysed.setdefault("tables_not_compared", []).append("From<BoxType> for u32")
+        chk.ok("R1", "From<BoxType>.form", "not compared: the encoder of box codes is not a match", site_of(f_into))
+        return
+    t2 = tables.match_table(fx, m2)
     for pat, res, arm in t1:
         if pat[0] == "int" and res[0] == "variant" and not res[2]:
             code = pat[1]
@@ -149,6 +185,46 @@ def be_bytes_of(arr, name, nbytes=4):
     return True
 
 
+def _hoist_try(t):
+    """`f(.. g(x).map_err(h)? ..)` with g(x) = if c { Ok(v) } else { Err(e) }  ==  if c { f(.. v ..) } else { return Err(..) }"""
+    found = []
+
+    def walk(x):
+        if isinstance(x, tuple):
+            if len(x) == 3 and x[0] == "ext" and x[1] == "try" and isinstance(x[2], list) and len(x[2]) == 1:
+                found.append(x)
+            for y in x:
+                walk(y)
+        elif isinstance(x, list):
+            for y in x:
+                walk(y)
+        elif isinstance(x, dict):
+            for y in x.values():
+                walk(y)
+    walk(t)
+    if len(found) != 1:
+        return t
+    tr = found[0]
+    inner = tr[2][0]
+    while isinstance(inner, tuple) and inner[0] == "ext" and str(inner[1]).startswith("map_err") and inner[2]:
+        inner = inner[2][0]
+    if not (isinstance(inner, tuple) and inner[0] == "ite" and inner[2][0] == "variant" and last(inner[2][1]) == "Ok" and inner[2][2] and inner[3][0] == "variant" and last(inner[3][1]) == "Err"):
+        return t
+    v = inner[2][2][0]
+
+    def subst(x):
+        if x is tr:
+            return v
+        if isinstance(x, tuple):
+            return tuple(subst(y) for y in x)
+        if isinstance(x, list):
+            return [subst(y) for y in x]
+        if isinstance(x, dict):
+            return {k: subst(y) for k, y in x.items()}
+        return x
+    return ("ite", inner[1], subst(t), ("variant", "core::result::Result::Err", [("opaque", "mapped error")]))
+
+
 def r2(fx, chk):
     f_u32 = fx.impl_fn("FourCC", "From<u32>", "from")
     f_ref = fx.impl_fn("u32", "From<&FourCC>", "from")
@@ -204,7 +280,7 @@ def r2(fx, chk):
         ok = len(names) == 1 and list(names)[0].startswith("conv:" + f_into["id"] + "(") and be_bytes_of(v, list(names)[0])
     chk.require(ok, "R2", "From<BoxType>", "big-endian bytes of u32::from(box type)", "From<BoxType> for FourCC is not the big-endian code of the box type: " + sval.show(t)[:200], site_of(f_bt))
     # FromStr: exactly four bytes, stored in order, anything else rejected
-    t = ev(f_str)
+    t = _hoist_try(ev(f_str))
     pn = f_str["hir"]["params"][0].get("name")
     ok = False
     if t[0] == "ite" and t[1] == ("lenis", ("slice", pn), 4):
